@@ -51,6 +51,22 @@ static CLASS_REPORTS: [AtomicU64; 5] =
     [AtomicU64::new(0), AtomicU64::new(0), AtomicU64::new(0), AtomicU64::new(0), AtomicU64::new(0)];
 const CLASS_WITNESSES_PER_RUN: u64 = 6;
 
+/// panic signature that is stable across inputs: source file + message up to the first digit/quote
+fn panic_sig(p: &PanicInfo) -> String {
+    let file = p.location.split(':').next().unwrap_or("?");
+    let file = match file.find("/src/") {
+        Some(i) => &file[i + 1..],
+        None => file,
+    };
+    let msg: String = p
+        .message
+        .chars()
+        .take_while(|c| !c.is_ascii_digit() && *c != '`' && *c != '\'' && *c != '"')
+        .take(60)
+        .collect();
+    format!("{file}:{}", msg.trim())
+}
+
 fn class_violation(rep: &mut Report, sig: &'static str, witness: impl FnOnce() -> Value) {
     let i = CLASS_SIGS.iter().position(|s| *s == sig).expect("class signature");
     rep.count(&format!("class-finding:{sig}"), 1);
@@ -757,7 +773,21 @@ fn token_case(case: u64, rng: &mut Rng, rep: &mut Report) {
     rep.observe("filter_subset", set.join("+"));
     for (i, (text, class)) in texts.iter().enumerate() {
         let a = if i % 2 == 0 { &mut an } else { &mut an2 };
-        let facts = check_stream(rep, text, a, bare.as_mut(), &spec, "TextAnalyzer::token_stream");
+        let facts = match guarded(|| check_stream(rep, text, a, bare.as_mut(), &spec, "TextAnalyzer::token_stream")) {
+            Ok(f) => f,
+            Err(p) if p.in_harness() => {
+                rep.harness_error(format!("tokens#{case}: panic in harness at {}: {}", p.location, p.message));
+                return;
+            }
+            Err(p) => {
+                let mut w = spec.witness();
+                w["text"] = json!(clip(text, 200));
+                w["text_len"] = json!(text.len());
+                w["panic"] = json!({"at": p.location, "message": clip(&p.message, 300)});
+                rep.violation(format!("token:token_stream-panics:{}", panic_sig(&p)), w);
+                return;
+            }
+        };
         rep.eval();
         rep.observe("text_class", *class);
         rep.count("tokens_checked", facts.tokens);
@@ -961,7 +991,7 @@ fn check_snippet(
         } else {
             rep.violation("snippet:highlight-outside-fragment", wit(json!(null)));
             if let Err(p) = r {
-                rep.violation(format!("snippet:to_html-panics:{}", p.sig()), wit(json!({"panic": p.message, "at": p.location})));
+                rep.violation(format!("snippet:to_html-panics:{}", panic_sig(&p)), wit(json!({"panic": p.message, "at": p.location})));
             }
         }
         return facts;
@@ -993,7 +1023,7 @@ fn check_snippet(
     let collapsed = match guarded(|| collapse_overlapped_ranges(&hl)) {
         Ok(c) => c,
         Err(p) => {
-            rep.violation(format!("snippet:collapse:{}", p.sig()), wit(json!({"panic": p.message})));
+            rep.violation(format!("snippet:collapse:{}", panic_sig(&p)), wit(json!({"panic": p.message})));
             return facts;
         }
     };
@@ -1101,7 +1131,7 @@ fn check_snippet(
     let html = match guarded(|| snippet.to_html()) {
         Ok(h) => h,
         Err(p) => {
-            rep.violation(format!("snippet:to_html-panics:{}", p.sig()), wit(json!({"panic": p.message, "at": p.location})));
+            rep.violation(format!("snippet:to_html-panics:{}", panic_sig(&p)), wit(json!({"panic": p.message, "at": p.location})));
             return facts;
         }
     };
@@ -1478,7 +1508,7 @@ fn snippet_case(case: u64, rng: &mut Rng, rep: &mut Report) {
                     w["max_num_chars"] = json!(n);
                     w["query_terms"] = json!(terms.iter().take(12).collect::<Vec<_>>());
                     w["panic"] = json!({"at": p.location, "message": p.message});
-                    rep.violation(format!("snippet:snippet()-panics:{}", p.sig()), w);
+                    rep.violation(format!("snippet:snippet()-panics:{}", panic_sig(&p)), w);
                     failed = true;
                     break;
                 }
@@ -1532,7 +1562,7 @@ fn snippet_case(case: u64, rng: &mut Rng, rep: &mut Report) {
                         w["text"] = json!(clip(&expect_text, 300));
                         w["max_num_chars"] = json!(n);
                         w["panic"] = json!({"at": p.location, "message": p.message});
-                        rep.violation(format!("snippet:snippet_from_doc()-panics:{}", p.sig()), w);
+                        rep.violation(format!("snippet:snippet_from_doc()-panics:{}", panic_sig(&p)), w);
                         break;
                     }
                 };
